@@ -117,6 +117,18 @@ def real_read_cleanup(ritem, text):
     return seen[0]
 
 
+def stored_outside_py(o):
+    """Stored texts the composition theorem does not speak about (over-approximation of C14Compose.stored_outside):
+    a vCard with a PHOTO line (vobject never folds it), a white-space-only physical line (C14:fold-ws), quoted-printable."""
+    if "quoted-printable" in o.lower():
+        return True
+    for p in o.split("\n"):
+        p = p.rstrip("\r\n")
+        if p and p.isspace():
+            return True
+    return "BEGIN:VCARD" in o.upper() and re.search(r"(?im)^(?:[^:;\r\n]*\.)?PHOTO[;:]", o) is not None
+
+
 def real_put_pipeline(ritem, text, tag):
     """read_components -> check_and_sanitize_items -> Item.serialize, as do_PUT/prepare do for one object."""
     try:
@@ -184,16 +196,16 @@ def rand_text_value(rng):
 
 
 # ---------------------------------------------------------------------------------------------------------------
-HEAVY = ("put_model", "reload_model", "export")      # whole objects / collections per case: small shards (memory)
+HEAVY = ("put_model", "reload_model", "export", "stored_normal")      # whole objects / collections per case: small shards (memory)
 
 
-def corr(ctx, tag, fn, cases, ie, oe, eqb, key=None, nontrivial=None):
+def corr(ctx, tag, fn, cases, ie, oe, eqb, key=None, nontrivial=None, header=None):
     for i, o in cases:
         k = key(i) if key else repr(i)
         ctx.case((tag, k), nontrivial=(nontrivial(i, o) if nontrivial else True))
     ctx.count("cases:" + tag, len(cases))
     ctx.log("correspondence", tag, len(cases), "cases")
-    bad = ctx.diff_cases("c14_" + tag, HEADER, fn, cases, ie, oe, eqb, shard=max(1, min(4 if tag == "export" else 25 if tag in HEAVY else 150, -(-len(cases) // 16))))
+    bad = ctx.diff_cases("c14_" + tag, header or HEADER, fn, cases, ie, oe, eqb, shard=max(1, min(4 if tag == "export" else 25 if tag in HEAVY else 150, -(-len(cases) // 16))))
     if bad is None:
         return None
     ok = not bad
@@ -391,6 +403,20 @@ def run(ctx):
     # a cache miss recomputes the text from the stored file: must be the stored text (model: reload_model)
     corr(ctx, "reload_model", "reload_model", [(o, real_put_pipeline(ritem, o, "VADDRESSBOOK" if "BEGIN:VCARD" in o else "VCALENDAR"))
                                                for _, o in accepted[:ctx.n(70, 800)]], enc_str, enc_opt(enc_str), "eq_os")
+    # the premise of the composition theorems, observed: every stored text of the stream, evaluated inside Coq, meets
+    # C14Compose.put_side_ok (values in codec form, no clean-up applicable, vobject's order, well-formed lines with sorted
+    # parameters, nothing for the text clean-ups) AND is a fixed point of put_model -- outside the three documented classes
+    # (vCard PHOTO lines are never folded; C14:fold-ws; quoted-printable), which the model must classify as such itself
+    stored = []
+    seen_stored = set()
+    for _, o in accepted:
+        if o not in seen_stored:
+            seen_stored.add(o)
+            stored.append((o, 3 if stored_outside_py(o) else 0))
+    ctx.count("stored_normal:premise-observed", sum(1 for _, e in stored if e == 0))
+    ctx.count("stored_normal:outside-documented", sum(1 for _, e in stored if e == 3))
+    corr(ctx, "stored_normal", "stored_check", stored, enc_str, enc_N, "stored_check_ok",
+         header=HEADER + "Require Import RV.Proofs.C14Compose.\n", nontrivial=lambda i, o: o == 0)
     ctx.samples += [dict(upload=t[:400], stored=(o or "")[:400]) for t, o in put_cases[:2]]
     for k, v in list(g.features.items()) + list(gc.features.items()):
         ctx.count("grammar:" + k, v)
